@@ -29,6 +29,7 @@ type FuncResult struct {
 	HasContract bool
 	NPost       int
 	AllObls     []*Obligation
+	OblAssumes  map[int]bool // indexes of asserts that merely assume an obligation after it was recorded
 }
 
 type ObserveTerm struct {
@@ -266,8 +267,8 @@ func (e *Engine) VerifyFunc(fn *ssa.Function, spec *FuncSpec, lockMode bool) (re
 				}
 				_ = i
 				o := fx.addOblAt("post", name, r.guard, t, r.pos, fmt.Sprintf("postcondition at return %d", ri))
+				res.NPost++
 				if o != nil {
-					res.NPost++
 					// later postconditions of the same return may use the earlier ones
 					fx.ctx.Assert(Imp(r.guard, t))
 				}
@@ -275,6 +276,11 @@ func (e *Engine) VerifyFunc(fn *ssa.Function, spec *FuncSpec, lockMode bool) (re
 			if !spec.Lemma {
 				fx.frameObls(spec, env, r, ri)
 			}
+		}
+		if lockMode && spec != nil {
+			h := fx.sv(r.st, "held", ArrS(SRef, SInt))
+			fx.addOblAt("lock-fresh", "objects allocated by the call have free locks", r.guard,
+				fmt.Sprintf("(forall ((o Ref)) (=> (and (>= (epoch o) %s) (< (epoch o) %s)) (= (select %s o) 0)))", fx.nowEntry, fx.now(r.st), h), r.pos, "a lock of an object created by the function is still held on return")
 		}
 		if lockMode {
 			held := fx.sv(r.st, "held", ArrS(SRef, SInt))
@@ -288,12 +294,13 @@ func (e *Engine) VerifyFunc(fn *ssa.Function, spec *FuncSpec, lockMode bool) (re
 				}
 			}
 			if !declared && held != held0 {
-				fx.addOblAt("lock-balance", "locks released on return", r.guard, Eq(held, held0), r.pos, "a lock acquired by the function is still held (or one it did not hold was released)")
+				fx.addOblAt("lock-balance", "locks released on return", r.guard, fmt.Sprintf("(forall ((o Ref)) (=> (< (epoch o) %s) (= (select %s o) (select %s o))))", fx.nowEntry, held, held0), r.pos, "a lock acquired by the function is still held (or one it did not hold was released)")
 			}
 		}
 	}
 	if len(a.rets) > 0 {
 		res.Cover = &Obligation{Func: key, Name: "cover:return", Kind: "cover", Guard: "true", Goal: Not(Or(retGuards...)), NAsserts: len(fx.ctx.asserts)}
+		res.OblAssumes = fx.oblAssumes
 	}
 	_ = nReq
 	return res
